@@ -305,6 +305,7 @@ def c06(ck):
     consts = {"MaxLen": 3 if ck.quick else 4}
     gen_and_replay(ck, "GenC06", consts, timeout=1500)
     cases = text_cases(ck, ["escapes", "strings", "tokens", "numbers"] + ([] if ck.quick else ["brackets", "macros", "tokens2"]), 4)
+    cases += text_cases(ck, ["escseeds"], 3)
     ck.replay(cases, args=["-prop", "C06"])
     ck.exhaustive = True
     # beyond the alphabet: random values with arbitrary Unicode strings, depth <= 6 (a round-trip MONITOR)
